@@ -41,6 +41,9 @@ func (fk *freshKind) isFresh(v ssa.Value, at ssa.Instruction, seen map[ssa.Value
 		if f := calleeObj(&x.Call); f != nil && fk.cloneFns[f] {
 			return true
 		}
+		if fk.returnsFresh(x, 0) {
+			return true
+		}
 		fk.whyNot = "value is the result of " + calleeFull(&x.Call)
 		return false
 	case *ssa.Alloc:
@@ -48,6 +51,9 @@ func (fk *freshKind) isFresh(v ssa.Value, at ssa.Instruction, seen map[ssa.Value
 	case *ssa.Extract:
 		if call, ok := x.Tuple.(*ssa.Call); ok {
 			if f := calleeObj(&call.Call); f != nil && fk.cloneFns[f] {
+				return true
+			}
+			if fk.returnsFresh(call, x.Index) {
 				return true
 			}
 		}
@@ -117,6 +123,89 @@ func (fk *freshKind) isFresh(v ssa.Value, at ssa.Instruction, seen map[ssa.Value
 	return false
 }
 
+// returnsFresh: the call invokes an unexported function of package lungo whose every return statement yields, in
+// slot idx, an object that is fresh by the same rules inside that function (the clone-or-create step of a write moved
+// into a helper); parameters of that function are judged at its call sites when fk.paramOK is set.
+func (fk *freshKind) returnsFresh(call *ssa.Call, idx int) bool {
+	h := staticFn(&call.Call)
+	if h == nil || h.Blocks == nil || fnPkgPath(h) != pkgLungo || fk.depth > 2 {
+		return false
+	}
+	if obj := h.Object(); obj == nil || obj.Exported() {
+		return false
+	}
+	rets := returnsOf(h)
+	if len(rets) == 0 {
+		return false
+	}
+	sub := &freshKind{c: fk.c, cloneFns: fk.cloneFns, fieldFwd: fk.fieldFwd, paramOK: fk.paramOK, depth: fk.depth + 1}
+	for _, ret := range rets {
+		if idx >= len(ret.Results) {
+			return false
+		}
+		v := retVal(ret, idx)
+		if isNilConst(v) {
+			continue // an error return: nothing to modify
+		}
+		if !sub.isFresh(v, ret, map[ssa.Value]bool{}) {
+			return false
+		}
+	}
+	return true
+}
+
+// freshAtCallSites builds the paramOK judgement: a parameter of an unexported function of package lungo is fresh iff
+// the argument is fresh at every call site.
+func freshAtCallSites(c *Ctx, cloneFns map[*types.Func]bool, fieldFwd *types.Var, what string) func(fn *ssa.Function, p *ssa.Parameter) (bool, string) {
+	paramMemo := map[*ssa.Parameter]int{}
+	var paramOK func(fn *ssa.Function, p *ssa.Parameter) (bool, string)
+	paramOK = func(fn *ssa.Function, p *ssa.Parameter) (bool, string) {
+		if v, ok := paramMemo[p]; ok {
+			return v == 1, "helper parameter " + p.Name() + " is not fresh at every call site"
+		}
+		paramMemo[p] = 1
+		if obj := fn.Object(); obj == nil || obj.Exported() || fnPkgPath(fn) != pkgLungo {
+			paramMemo[p] = 0
+			return false, "parameter " + p.Name() + " of exported/foreign function " + funcName(fn)
+		}
+		idx := -1
+		for i, q := range fn.Params {
+			if q == p {
+				idx = i
+			}
+		}
+		sites := 0
+		okAll := true
+		why := ""
+		for _, caller := range c.repoFuncs() {
+			if fnPkgPath(caller) != pkgLungo {
+				continue
+			}
+			allInstrs(caller, func(in ssa.Instruction) {
+				ci, ok := in.(ssa.CallInstruction)
+				if !ok || staticFn(ci.Common()) != fn {
+					return
+				}
+				sites++
+				sub := &freshKind{c: c, cloneFns: cloneFns, fieldFwd: fieldFwd, paramOK: paramOK}
+				if !sub.isFresh(ci.Common().Args[idx], in, map[ssa.Value]bool{}) {
+					okAll = false
+					why = fmt.Sprintf("call site %s in %s passes a shared %s as %s (%s)", c.pos(in.Pos()), funcName(caller), what, p.Name(), sub.whyNot)
+				}
+			})
+		}
+		if sites == 0 || theHelpers.escaped[fn] {
+			okAll = false
+			why = "no call site found for helper " + funcName(fn) + " (or it is used as a value)"
+		}
+		if !okAll {
+			paramMemo[p] = 0
+		}
+		return okAll, why
+	}
+	return paramOK
+}
+
 // ---- OWN-1 ----------------------------------------------------------------------
 
 func ruleOwn1(c *Ctx, r *Reporter) {
@@ -129,6 +218,7 @@ func ruleOwn1(c *Ctx, r *Reporter) {
 		return
 	}
 	fk := &freshKind{c: c, cloneFns: map[*types.Func]bool{catClone: true, newCat: true}, fieldFwd: txnCat}
+	fk.paramOK = freshAtCallSites(c, fk.cloneFns, txnCat, "catalog")
 	n := 0
 	for _, fn := range c.repoFuncs() {
 		if fnPkgPath(fn) != pkgLungo {
@@ -282,53 +372,8 @@ func ruleOwn2(c *Ctx, r *Reporter) {
 	cloneFns := map[*types.Func]bool{collClone: true, newColl: true, newSet: true, createIdx: true}
 
 	// helper parameters: unexported functions of package lungo that receive a *mongokit.Collection; fresh iff fresh at every call site
-	var fk *freshKind
-	paramMemo := map[*ssa.Parameter]int{}
-	fk = &freshKind{c: c, cloneFns: cloneFns}
-	fk.paramOK = func(fn *ssa.Function, p *ssa.Parameter) (bool, string) {
-		if v, ok := paramMemo[p]; ok {
-			return v == 1, "helper parameter " + p.Name() + " is not fresh at every call site"
-		}
-		paramMemo[p] = 1
-		if obj := fn.Object(); obj == nil || obj.Exported() || fnPkgPath(fn) != pkgLungo {
-			paramMemo[p] = 0
-			return false, "parameter " + p.Name() + " of exported/foreign function " + funcName(fn)
-		}
-		idx := -1
-		for i, q := range fn.Params {
-			if q == p {
-				idx = i
-			}
-		}
-		sites := 0
-		okAll := true
-		why := ""
-		for _, caller := range c.repoFuncs() {
-			if fnPkgPath(caller) != pkgLungo {
-				continue
-			}
-			allInstrs(caller, func(in ssa.Instruction) {
-				ci, ok := in.(ssa.CallInstruction)
-				if !ok || staticFn(ci.Common()) != fn {
-					return
-				}
-				sites++
-				sub := &freshKind{c: c, cloneFns: cloneFns, paramOK: fk.paramOK}
-				if !sub.isFresh(ci.Common().Args[idx], in, map[ssa.Value]bool{}) {
-					okAll = false
-					why = fmt.Sprintf("call site %s in %s passes a shared collection as %s (%s)", c.pos(in.Pos()), funcName(caller), p.Name(), sub.whyNot)
-				}
-			})
-		}
-		if sites == 0 {
-			okAll = false
-			why = "no call site found for helper " + funcName(fn)
-		}
-		if !okAll {
-			paramMemo[p] = 0
-		}
-		return okAll, why
-	}
+	fk := &freshKind{c: c, cloneFns: cloneFns}
+	fk.paramOK = freshAtCallSites(c, cloneFns, nil, "collection")
 
 	// receiver root: x.Documents.Add(...) -> x ; x.Indexes[name] = ... -> x
 	rootColl := func(v ssa.Value) ssa.Value {
@@ -506,6 +551,12 @@ func ruleOwn3(c *Ctx, r *Reporter) {
 			}
 			if _, ok := in.(*ssa.MapUpdate); ok {
 				hasLoop = true
+			}
+			// maps.Copy(dst, src) copies entry by entry as well
+			if call, ok := in.(*ssa.Call); ok {
+				if sf := calleeObj(&call.Call); sf != nil && sf.Pkg() != nil && sf.Pkg().Path() == "maps" && sf.Name() == "Copy" {
+					hasLoop = true
+				}
 			}
 		})
 		r.check(hasCopy && hasLoop, "Set.Clone:contents", c.pos(fn.Pos()), "list copied with copy(), index copied entry by entry", "Set.Clone does not copy both the list and the index")
